@@ -236,10 +236,12 @@ def _layout(case):
             return
         pre = snapshot(m)
         pre_order = list(m.keys())
-        for name, apply, inv, fp in forward_ops(m):
-            if list(m.keys()) != pre_order or any(not np.array_equal(np.asarray(m[k]), pre[k]) for k in pre_order):
-                bad("C13/operand-mutated", f"{names}: a re-layout operation modified the multi-image it was applied to")
-                return
+        for name, apply, inv, fp in forward_ops(m) + [("__check_unchanged__", None, None, None)]:
+            if apply is None:
+                # once per visited state, after every operation was applied to it: the state itself is unchanged
+                if list(m.keys()) != pre_order or any(not np.array_equal(np.asarray(m[k]), pre[k]) for k in pre_order):
+                    bad("C13/operand-mutated", f"{names}: a re-layout operation modified the multi-image it was applied to")
+                continue
             try:
                 m2 = apply()
             except Exception as e:
